@@ -590,6 +590,7 @@ func c01Gen(tier string, seed uint64, out *bufio.Writer) {
 	c01GenAtoms(tier, r, out)
 	c01GenSeekMixed(tier, r, out)
 	c01GenBolt(tier, r, nBolt, depth, out)
+	c01GenSelfRef(tier, r, out)
 }
 
 // the seek shortcut over buckets that hold more than strings: `anyOf(s) = "<what an element renders to>"`
